@@ -267,7 +267,7 @@ Record upload := {
   u_oracles : oracles;
   u_nrepl : N;      (* locations other than the primary the master lists *)
   u_fault : N;      (* 0 none; 1 one replica answers 500; 2 one replica is down;
-                       3 the listed replicas do not hold the volume *)
+                       3 the listed replicas are volume servers that do not hold the volume *)
   u_delete : bool
 }.
 
@@ -280,9 +280,10 @@ Definition healthy_replicas (u : upload) : N :=
   match u_fault u with 1 | 2 => u_nrepl u - 1 | _ => u_nrepl u end.
 
 (* ReplicatedWrite: local write, then every other location; any error => 500.  A
-   location that does not hold the volume skips the write and answers 201. *)
+   location that receives type=replicate for a volume it does not hold answers with an
+   error (the repaired ReplicatedWrite; it used to skip the write and answer 201). *)
 Definition upload_status (u : upload) : N :=
-  match u_fault u with 1 | 2 => 500 | _ => 201 end.
+  match u_fault u with 1 | 2 | 3 => 500 | _ => 201 end.
 
 Definition replica_view (u : upload) : view :=
   if u_fault u =? 3 then blank 3 false else view_of (replica_needle u).
@@ -291,7 +292,8 @@ Definition replica_view (u : upload) : view :=
 Definition views_after_upload (u : upload) : list view :=
   view_of (primary_needle u) :: repeat (replica_view u) (N.to_nat (healthy_replicas u)).
 
-(* DeleteHandler + ReplicatedDelete: a Size = 0 needle is found but cannot be deleted *)
+(* DeleteHandler + ReplicatedDelete: a Size = 0 needle is found but cannot be deleted; a
+   location that does not hold the volume answers 404, which util.Delete accepts *)
 Definition delete_status (u : upload) : N :=
   match u_fault u with 1 | 2 => 500 | _ => 202 end.
 
@@ -319,7 +321,8 @@ Definition same_outcome (a b : view) : bool :=
   && (fst (so_ttl a) =? fst (so_ttl b)) && (snd (so_ttl a) =? snd (so_ttl b))
   && Bool.eqb (so_dec_ok a) (so_dec_ok b) && (so_len a =? so_len b) && (so_crc a =? so_crc b).
 
-Definition is_deleted (v : view) : bool := (so_state v =? 1) || (so_state v =? 2).
+(* not served: absent, tombstoned, or the server holds nothing of the volume *)
+Definition is_deleted (v : view) : bool := (so_state v =? 1) || (so_state v =? 2) || (so_state v =? 3).
 
 Definition success (status : N) : bool := (status =? 201) || (status =? 204) || (status =? 202).
 
@@ -352,11 +355,7 @@ Definition trig_mime (u : upload) : bool :=
 (* 1: empty payload *)
 Definition trig_empty (u : upload) : bool := body_empty (q_body (u_req u)).
 
-(* 2: a listed location that does not hold the volume *)
-Definition trig_lost_volume (u : upload) : bool := (u_fault u =? 3) && (0 <? u_nrepl u).
-
 Definition trigger (u : upload) : option N :=
-  if trig_lost_volume u then Some 2
-  else if trig_empty u then Some 1
+  if trig_empty u then Some 1
   else if trig_mime u then Some 0
   else None.
